@@ -173,9 +173,9 @@ Proof.
     clear Hplain.
     match type of Hf with (if ?b then _ else _) = _ => destruct b eqn:Hc; [|discriminate Hf] end.
     apply andb_prop in Hc as [Hc Hfb]. apply andb_prop in Hc as [Hfr Hpok].
-    destruct (frag_body pv sv bound k ((var, length (param_ids params)) :: fl) (rev (param_ids params) ++ sc) body) as [scout|] eqn:Hfbody; [|discriminate Hfb].
+    destruct (frag_stmts pv sv bound ((var, length (param_ids params)) :: fl) k (rev (param_ids params) ++ sc) body) as [scout|] eqn:Hfbody; [|discriminate Hfb].
     cbn [compile_stmt] in Hy. rewrite definition_fun in Hy. mon Hy. fresh_all.
-    destruct (proj2 (L_body_all pv sv bound u n) body k 0 (c + 1) a0 c1 _ _ scout l Hm0 Hfbody Hl ltac:(lia)) as (bb & l1 & Hsb & _).
+    destruct (L_fb_all pv sv bound u _ n k body 0 (c + 1) a0 c1 _ scout l Hm0 Hfbody) as (bb & l1 & Hsb).
     pose proof Hsb as (_ & Hcc1 & Hfr1 & _).
     destruct (fresh_id_inv _ _ _ _ _ _ Hfr) as (_ & _ & _ & Hvb).
     assert (Hl1 : forall v, v < bound -> alut_get l1 v = None) by (intros v Hv; rewrite Hfr1 by lia; apply Hl; exact Hv).
@@ -264,11 +264,11 @@ Proof.
     match type of Hf with (if ?b then _ else _) = _ => destruct b eqn:Hc; [|discriminate Hf] end.
     apply andb_prop in Hc as [Hc Hfb]. apply andb_prop in Hc as [Hfr Hpok].
     set (ps := param_ids params) in *. set (fl' := (var, length ps) :: fl) in *.
-    destruct (frag_body pv sv bound k fl' (rev ps ++ sc) body) as [scout|] eqn:Hfbody; [|discriminate Hfb].
+    destruct (frag_stmts pv sv bound fl' k (rev ps ++ sc) body) as [scout|] eqn:Hfbody; [|discriminate Hfb].
     cbn [compile_stmt] in Hy. rewrite definition_fun in Hy. fold ps in Hy. mon Hy. fresh_all. rename a0 into bc.
     rewrite exec_def_fun in Hev. fold ps in Hev.
     apply ucovers_cons in Huy as [_ Huy]. apply ucovers_app in Huy as [Hubc _].
-    destruct (proj2 (L_body_all pv sv bound u (S n')) body k 0 (c + 1) bc c1 _ fl' scout l Hm0 Hfbody Hlb ltac:(lia)) as (bb & l1 & Hsb & _).
+    destruct (L_fb_all pv sv bound u fl' (S n') k body 0 (c + 1) bc c1 _ scout l Hm0 Hfbody) as (bb & l1 & Hsb).
     pose proof Hsb as (Hemb & Hcc1 & Hfr1 & Hnlb).
     destruct (fresh_id_inv _ _ _ _ _ _ Hfr) as (Hnin & Hnpv & Hnsv & Hvb).
     destruct (L_items (S n') k items c1 ys c' sc fl' scf flf l1 Hys Hf) as (_ & _ & (_ & Hc1c' & _) & _);
@@ -490,7 +490,7 @@ Proof.
   assert (Hinta : interesting ra).
   { destruct ra as [v|o|cc]; [exact I | | destruct cc; exact I]. cbn in Hgood. destruct o; try destruct Hgood; try exact I.
     exfalso. pose proof (SemSane.s_apply _ (SemSane.sane_all (S (S f'))) (SyltSem.SClos (fd_ci d)) [] stg) as Hq. rewrite Hap in Hq. exact Hq. }
-  pose proof (proj2 (proj2 (proj2 (proj2 (proj2 (proj2 (P_all pv bound bound u (S (S f')) flg Wg)))))) d [] [] scg eg stg Eg stLg ra sta
+  pose proof (proj2 (proj2 (proj2 (proj2 (proj2 (P_all pv bound bound u (S (S f')) flg Wg))))) d [] [] scg eg stg Eg stLg ra sta
                     Hrelg Hd Hvis (Forall2_nil _) Hap Hinta) as Hcall.
   assert (Hev_s : Eval Eg (EVar (fmt_var s)) stLg (ROk (VFun (fd_fid d)) stLg)).
   { rewrite <- Hcell. apply Eval_local. exact HlkL. }
